@@ -461,6 +461,7 @@ type wWal struct {
 	seed     *wSeed
 	gen      int  // number of restores this wallet slot went through
 	cut      bool // an operation of this wallet was cut since it was created / restored
+	blur     bool // ... inside a loop of DeleteProof calls: its store is not compared
 	meltQ    []*wMeltQ
 	broken   bool // the wallet could not be reopened
 }
